@@ -475,7 +475,8 @@ top level of channel tracks, notes in drum mode through their routines, the loop
 replayed after the loop-back jump.) -/
 theorem C02_song_roundtrip_partial (song : Song) (d : DataInfo) (vol : Option String) (pf : Timeline.Platform)
     (b : MdsFile.Built) (hpc : PlatformClean d) (hp : SongTop.PlainSong song)
-    (hb : MdsFile.construct song d vol = .ok b) (hlen : b.seq.length < 65536) (hR : SongTop.RoutinesOK song b) :
+    (hb : MdsFile.construct song d vol = .ok b) (hlen : b.seq.length < 65536) (hR : SongTop.RoutinesOK song b)
+    (hpa : SongTop.PlatAgree d.platform pf) :
     ∀ id root t, (id, root) ∈ song.tracks → id < 16 → Timeline.inDomain song root = true →
       SongSplit.segCount root ≤ 1 → SongTop.LoopDrumOK root → Timeline.expected song pf root = .ok t →
       ∃ base ts start, tracksOf b.seq = some (base, ts) ∧ ts.lookup id = some start ∧
@@ -484,7 +485,7 @@ theorem C02_song_roundtrip_partial (song : Song) (d : DataInfo) (vol : Option St
             run b.seq base 1 maxTicks fuel { pc := start } = (T, .finished) := by
   intro id root t hmem hid hdom hcnt hloop hexp
   obtain ⟨ts, stream, pre, htr, hlk, _, hres⟩ :=
-    SongTop.song_plays hpc hp hb hlen pf hmem hid hR (SongTop.inDomain_segno hdom) hcnt hloop hexp 1
+    SongTop.song_plays hpc hp hb hlen pf hmem hid (SongTop.platOK_of_agree hpa _ _) hR (SongTop.inDomain_segno hdom) hcnt hloop hexp 1
   obtain ⟨X, Y, TA, TB, loops, s', hreach, hfin, hout, hX, hY, ht, _, _, _⟩ := hres.plays
   refine ⟨_, ts, pre.length, htr, hlk,
     (if loops then TA ++ repeatL 1 (TB ++ [Tk.loopMark]) ++ TB else TA ++ TB), ?_, ?_⟩
